@@ -1,5 +1,5 @@
 (* C06 — policy management behaves as operations on a duplicate-free ordered rule set. *)
-From Coq Require Import List NArith Bool.
+From Coq Require Import List NArith ZArith Bool.
 From PyCasbin Require Import Base Policy PolicyProofs.
 Import ListNotations.
 
@@ -75,3 +75,75 @@ Example C06_example :
                    SUpdate [1;2]%N [3;4]%N; SRemoveMany [[5;6]%N; [7;8]%N]; SRemoveFiltered 0 [0;4]%N] []
   = [[1;2]%N; [5;6]%N].
 Proof. vm_compute. reflexivity. Qed.
+
+(* ---------------------------------------------------------------------------------------------------------------
+   The same statements about the SOURCE: casbin/model/policy.py is re-translated on every run into the program
+   [policy_gen] (coq/gen/PolicyGen.v) of the small imperative language of PolLang.v; [run policy_gen E FUEL m l args]
+   is the interpreter's result (value or exception, final rule list) of calling method m on rule list l.  PolicyTie.v
+   proves, for every rule list and all arguments, that it computes the functions of Policy.v used above. *)
+From PyCasbin Require PolLang PolicyTie.
+From PyCasbinGen Require PolicyGen.
+
+Theorem C06_source_has_policy : forall sp pi tk l r,
+  PolLang.run PolicyGen.policy_gen (PolicyTie.mkE sp pi tk) PolicyTie.FUEL PolicyGen.m_has_policy l [PolLang.PL r] =
+  (Ok (PolLang.PB (has_policy l r)), l).
+Proof. exact PolicyTie.src_has_policy. Qed.
+Print Assumptions C06_source_has_policy.
+
+Theorem C06_source_add_is_set_add : forall sp pi tk l r, PolicyTie.prio_of sp pi = None ->
+  PolLang.run PolicyGen.policy_gen (PolicyTie.mkE sp pi tk) PolicyTie.FUEL PolicyGen.m_add_policy l [PolLang.PL r] =
+  if has_policy l r then (Ok (PolLang.PB false), l) else (Ok (PolLang.PB true), l ++ [r]).
+Proof. exact PolicyTie.src_add_is_set_add. Qed.
+Print Assumptions C06_source_add_is_set_add.
+
+Theorem C06_source_remove_is_set_remove : forall sp pi tk l r, NoDup l ->
+  PolLang.run PolicyGen.policy_gen (PolicyTie.mkE sp pi tk) PolicyTie.FUEL PolicyGen.m_remove_policy l [PolLang.PL r] =
+  if has_policy l r then (Ok (PolLang.PB true), filter (neqb r) l) else (Ok (PolLang.PB false), l).
+Proof. exact PolicyTie.src_remove_is_set_remove. Qed.
+Print Assumptions C06_source_remove_is_set_remove.
+
+Theorem C06_source_batch_add_all_or_nothing : forall sp pi tk l rs, PolicyTie.prio_of sp pi = None ->
+  PolLang.run PolicyGen.policy_gen (PolicyTie.mkE sp pi tk) PolicyTie.FUEL PolicyGen.m_add_policies l [PolLang.PLL rs] =
+  if forallb (fun r => negb (has_policy l r)) rs && nodupb rule_eqb rs
+  then (Ok (PolLang.PB true), l ++ rs) else (Ok (PolLang.PB false), l).
+Proof. exact PolicyTie.src_batch_add_all_or_nothing. Qed.
+Print Assumptions C06_source_batch_add_all_or_nothing.
+
+Theorem C06_source_batch_remove_all_or_nothing : forall sp pi tk l rs, NoDup l ->
+  PolLang.run PolicyGen.policy_gen (PolicyTie.mkE sp pi tk) PolicyTie.FUEL PolicyGen.m_remove_policies l [PolLang.PLL rs] =
+  if forallb (has_policy l) rs && nodupb rule_eqb rs
+  then (Ok (PolLang.PB true), filter (notin rs) l) else (Ok (PolLang.PB false), l).
+Proof. exact PolicyTie.src_batch_remove_all_or_nothing. Qed.
+Print Assumptions C06_source_batch_remove_all_or_nothing.
+
+Theorem C06_source_update_in_place : forall sp pi l old new, NoDup l ->
+  PolLang.run PolicyGen.policy_gen (PolicyTie.mkE sp pi None) PolicyTie.FUEL PolicyGen.m_update_policy l
+    [PolLang.PL old; PolLang.PL new] =
+  if has_policy l old && negb (has_policy l new)
+  then (Ok (PolLang.PB true), replace_rule old new l) else (Ok (PolLang.PB false), l).
+Proof. exact PolicyTie.src_update_in_place. Qed.
+Print Assumptions C06_source_update_in_place.
+
+Theorem C06_source_filtered_remove_exact : forall sp pi tk l fi vs kept gone,
+  split_filtered l fi vs = Ok (kept, gone) ->
+  PolLang.run PolicyGen.policy_gen (PolicyTie.mkE sp pi tk) PolicyTie.FUEL PolicyGen.m_remove_filtered_policy l
+    [PolLang.PI (Z.of_nat fi); PolLang.PL vs] = (Ok (PolLang.PB (negb (PolicyTie.is_nil gone))), kept) /\
+  gone = filter (fm_true fi vs) l /\ kept = filter (fun r => negb (fm_true fi vs r)) l.
+Proof. exact PolicyTie.src_filtered_remove_exact. Qed.
+Print Assumptions C06_source_filtered_remove_exact.
+
+Theorem C06_source_filtered_remove_error_changes_nothing : forall sp pi tk l fi vs c,
+  split_filtered l fi vs = Err c ->
+  PolLang.run PolicyGen.policy_gen (PolicyTie.mkE sp pi tk) PolicyTie.FUEL PolicyGen.m_remove_filtered_policy l
+    [PolLang.PI (Z.of_nat fi); PolLang.PL vs] = (Err EIndex, l).
+Proof. exact PolicyTie.src_filtered_remove_error_changes_nothing. Qed.
+Print Assumptions C06_source_filtered_remove_error_changes_nothing.
+
+Example C06_source_example :
+  PolLang.run PolicyGen.policy_gen (PolicyTie.mkE true (-1)%Z None) PolicyTie.FUEL PolicyGen.m_add_policies
+    [[1000; 1001; 1002]%N] [PolLang.PLL [[1003; 1001; 1002]; [1000; 1004; 1002]]%N] =
+    (Ok (PolLang.PB true), [[1000; 1001; 1002]; [1003; 1001; 1002]; [1000; 1004; 1002]]%N) /\
+  PolLang.run PolicyGen.policy_gen (PolicyTie.mkE true (-1)%Z None) PolicyTie.FUEL PolicyGen.m_remove_filtered_policy
+    [[1000; 1001; 1002]; [1003; 1001; 1002]; [1000; 1004; 1002]]%N [PolLang.PI 1%Z; PolLang.PL [1001]%N] =
+    (Ok (PolLang.PB true), [[1000; 1004; 1002]]%N).
+Proof. exact PolicyTie.src_example. Qed.
